@@ -21,6 +21,10 @@ def search(S):
         imax = rng.uniform(0, 2, 3)
         fc = float(rng.uniform(1, 100))
         i0, e0, de0 = rng.uniform(-1, 1, 3) * imax, np.zeros(3), np.zeros(3)
+        if run % 3 == 1:
+            i0 = rng.uniform(-3, 3, 3)          # a previous integrator state outside the current limit (limit lowered, restored state)
+        if run % 5 == 4:
+            imax = imax * np.array([0.0, 1.0, 0.0])      # zero limits on some axes (as in the shipped simulation gains)
         for step in range(200):
             dt = float(rng.choice([0.004, 0.01, 0.02]))
             w, wr = rng.normal(size=3) * 5, rng.normal(size=3) * 5
